@@ -7,6 +7,31 @@ import re
 
 ROOT = os.path.dirname(os.path.dirname(os.path.abspath(__file__)))
 NOTES = {
+    'C02_r8m2_context_get_resources_src_asphalt_core__context_py': 'fixed scenario `generic_alias_types_are_found_by_every_lookup` (types that are equal but not identical objects)',
+    'C03_r8m1_tidy_up_of_the_types_normalisation_at': 'oracle `invalid-type-accepted` (before: correspondence only)',
+    'C03_r8m2_avoid_a_copy_optimisation_in_src_asphalt': 'oracle: a factory inherited when the context was created conflicts too (before: correspondence only)',
+    'C04_r8m2_in_context_get_resource_the_table_of_in': 'unhashable callable objects as factory callbacks; oracle `lookup-raised`',
+    'C05_r8m1_componentcontext_add_teardown_callback_src_asphalt_core__com': 'fixed scenario `every_registration_of_a_component_is_torn_down` (equal bound methods registered several times)',
+    'C05_r8m2_simplification_of_context_get_resource_in_src_asphalt': 'fixed scenario `factories_waiting_on_each_other_complete`',
+    'C06_r8m1_componentcontext___init___src_asphalt_core__component_py': 'fixed scenario `nested_tree_publications_release_waiters`',
+    'C06_r8m2_decide_once_whether_a_factory_is_asynchronous': 'asynchronous factories that are not `async def` functions (a wrapper returning a coroutine, an object with `async __call__`) in the startup machine',
+    'C07_r8m1_start_component_src_asphalt_core__component_py_only': 'fixed scenario `timeout_watches_every_tree` (plain `Component` containers seen childless first)',
+    'C07_r8m2_the_startup_watchdog__watch_component_tree_startup_in_src_as': 'the timeout scenario extended by a shielded / worker-thread last step of `start()`',
+    'C08_r8m1_context__context_py_now_keeps_a_per': 'oracle `stopped-early` (before: correspondence only)',
+    'C08_r8m2_context___init____context_py_no_longer_copies': 'a second snapshot probe when the task ends, with factories registered before and after the call',
+    'C09_r8m1_run_background_task_src_asphalt_core__concurrent_py_no': 'task targets that are unhashable callable objects',
+    'C10_r8m1_src_asphalt_core__event_py_stream_events_no': 'the caller recycles the list of signals it handed over while the stream is open',
+    'C12_r8m1_context___init___src_asphalt_core__context_py': 'fixed scenario `parent_is_the_current_context_itself` (a value-equal `Context` subclass); before: the proof about `Gen_ctxbase` only',
+    'C12_r8m3_extra_third_mutant_context___aenter___src_asphalt': 'fixed scenario `refused_entry_changes_nothing`',
+    'C13_r8m1_context___aexit___gets_a_fast_path_for': 'fixed scenario `left_from_another_task_is_closed_all_the_same`',
+    'C14_r8m1_componentcontext_add_resource_add_resource_factory__componen': 'fixed scenario `default_name_is_remapped_only_while_starting`',
+    'C15_r8m1__context_context_add_resource_which_componentcontext_add_res': 'falsy callable objects as the teardown callback of a resource in the runner programs',
+    'C16_r8m1_in_src_asphalt_core__cli_py_the': "override texts Python's `int()`/`float()` read differently from YAML (`0644`, `089`, `1e5`, `inf`, `1_000`)",
+    'C16_r8m2_in_src_asphalt_core__cli_py_run': 'override sequences `P.x=…`, `P=…`, `P.y=…`',
+    'C17_r8m2_merge_config_src_asphalt_core__utils_py_gains': 'oracle: the result belongs to the caller (writing into it shows in no later result)',
+    'C18_r8m1_src_asphalt_core__event_py_signal__subscribe': 'a listener that subscribed before the observed ones and leaves while they stay',
+    'C19_r8m1_inject_src_asphalt_core__context_py_now': 'fixed scenario `annotations_mean_what_they_say` (forward reference to a class defined after the decoration)',
+    'C19_r8m2_inject_s_lazy_resolve_forward_refs_src_asphalt_core': 'the same scenario: `Callable[..., None]` is not `Optional` (before: correspondence only)',
     "C06_r6m3_bonus_third_mutant_different_file_context_get_resource": "a bonus change its author assigned to the concurrent-generation property: the entry of a generation in flight is cleared only on success; reported by C04 (fixed scenario `failed_generation_with_waiters`)",
     "C15_r4m1__context_context__run_teardown_callbacks_a_debug_log_line": "NOT reported on the current tree, correctly: the change relied on defect F16 (`callable_name()` failing for callable objects); since the F16 fix it breaks nothing, its own demonstration passes, and the checks are silent. It was reported (C15 `callbacks-not-once`, C01) before that fix",
     "C18_r4m1_src_asphalt_core__event_py_the_registry": "not a C18 violation on the unchanged `Context` (contexts compare by identity, and a value-equal `Context` subclass already fails in the unchanged parent's child registry); the changed mechanism - value-equal owners sharing one channel - is C11's and is reported there through the value-equal owner class",
